@@ -99,11 +99,11 @@ def generator_plan(tier):
     if tier == "quick":
         return [
             # every skeleton shape x every kind of sequence list, one model
-            ("shapes", dict(MeshIds={2, 3, 5}, SkelIds=ALL_SK, AnimKinds=ALL_AN, TrsKinds={0, 1}, MaxModels=1, MaxLights=0), None),
+            ("shapes", dict(MeshIds={2, 3, 5}, SkelIds=ALL_SK, AnimKinds=ALL_AN, TrsKinds={0}, MaxModels=1, MaxLights=0), None),
             # every ordered pair: plain / skinned / animated / invalid / skipped, shared and distinct skeletons, then a light
-            ("pairs", dict(MeshIds={1, 2, 4, 6}, SkelIds={2, 6}, AnimKinds={0, 3, 5}, TrsKinds={0}, MaxModels=2, MaxLights=1), None),
+            ("pairs", dict(MeshIds={1, 2, 6}, SkelIds={2, 6}, AnimKinds={0, 3, 5}, TrsKinds={0}, MaxModels=2, MaxLights=1), None),
             ("walks", dict(MeshIds={1, 2, 3, 4, 5, 6}, SkelIds=ALL_SK, AnimKinds={0, 1, 2, 3, 4}, TrsKinds={0, 1}, MaxModels=4, MaxLights=1),
-             dict(num=120, depth=6)),
+             dict(num=100, depth=6)),
         ]
     return [
         ("shapes", dict(MeshIds={2, 3, 4, 5}, SkelIds=ALL_SK, AnimKinds=ALL_AN, TrsKinds={0, 1}, MaxModels=1, MaxLights=1), None),
@@ -163,7 +163,7 @@ def generate_cases(ctx, notes):
 
 def random_cases(ctx, vh, notes):
     d = ctx.scratch("rnd")
-    n, maxv, maxj, maxf = (260, 10, 8, 8) if ctx.tier == "quick" else (6000, 24, 14, 30)
+    n, maxv, maxj, maxf = (240, 10, 8, 8) if ctx.tier == "quick" else (6000, 24, 14, 30)
     p = os.path.join(d, "r.ndjson")
     core.run_vh(vh, ["xanim-random", "-out", p, "-seed", str(ctx.seed), "-n", str(n), "-maxv", str(maxv), "-maxj", str(maxj),
                      "-maxf", str(maxf)])
